@@ -309,22 +309,22 @@ func (s *Sched) Window(a *actor, d time.Duration) (ended bool) {
 	s.closures++
 	s.mu.Unlock()
 	a.grant <- struct{}{}
-	t := time.AfterFunc(d, func() {
-		s.mu.Lock()
-		s.cond.Broadcast()
-		s.mu.Unlock()
-	})
-	defer t.Stop()
+	// poll: nobody may be left to signal a condition variable here (the granted
+	// closure can be blocked on a lock of the caller), and a timer's wake-up
+	// could come before the wait begins
 	deadline := time.Now().Add(d)
-	s.mu.Lock()
-	defer s.mu.Unlock()
-	for a.running {
+	for {
+		s.mu.Lock()
+		running := a.running
+		s.mu.Unlock()
+		if !running {
+			return true
+		}
 		if !time.Now().Before(deadline) {
 			return false
 		}
-		s.cond.Wait()
+		time.Sleep(100 * time.Microsecond)
 	}
-	return true
 }
 
 // ConnActor returns the parked actor of the connection with the given id, if any.
